@@ -74,57 +74,63 @@ def facIfs (j : Json) (k : String) : Option (List (String × List PropArg)) :=
     | .arr #[.str n, .arr ps] => some (n, ps.toList.map propArg)
     | _ => none))
 
-def step (s : Topo) (j : Json) : Topo × Json :=
+/-- the request as a call of the op alphabet `Topo.TopoOp` (what `C09.atomic_op` quantifies over) -/
+def opOf (j : Json) : Option TopoOp :=
   let op := getStr j "op"
   let fl := flOf j
   let u := getNat j "u"
-  if op == "reset" then (Topo.empty, ok Json.null)
-  else if op == "snap" then (s, ok (snapJson s))
-  else if op == "add_node" then
-    finish (addNode fl u ⟨getStr j "name", optNid j "nid", optStr j "site", optStr j "ntype", propArgs j "props"⟩ s) (fun r => nidJ r.1) nul
+  let ifa := ifArg ((j.getObjVal? "if").toOption.getD Json.null)
+  if op == "add_node" then
+    some (.addNode fl u ⟨getStr j "name", optNid j "nid", optStr j "site", optStr j "ntype", propArgs j "props"⟩)
   else if op == "add_component" then
-    finish (addComponent fl u (nidOfString (getStr j "parent"))
+    some (.addComponent fl u (nidOfString (getStr j "parent"))
       ⟨getStr j "name", optNid j "nid", optStr j "ctype", optStr j "model", optNid j "ns_nid",
        (getArr j "if_nids").map (·.filterMap (fun x => x.getStr?.toOption.map nidOfString)),
-       (j.getObjValAs? Nat "n_labels").toOption, propArgs j "props"⟩ s) nidJ nul
+       (j.getObjValAs? Nat "n_labels").toOption, propArgs j "props"⟩)
   else if op == "add_storage" then
-    finish (addStorage fl u (nidOfString (getStr j "parent")) (getStr j "name") (optNid j "nid") (propArgs j "props") s) nidJ nul
-  else if op == "node_add_service" then
-    finish (nodeAddService fl u (nidOfString (getStr j "parent")) (svcArgs j) s) (fun r => nidJ r.1) (fun r => cacheJson r.2)
-  else if op == "add_service" then
-    finish (addService fl u (svcArgs j) s) (fun r => nidJ r.1) (fun r => cacheJson r.2)
+    some (.addStorage fl u (nidOfString (getStr j "parent")) (getStr j "name") (optNid j "nid") (propArgs j "props"))
+  else if op == "node_add_service" then some (.nodeAddService fl u (nidOfString (getStr j "parent")) (svcArgs j))
+  else if op == "add_service" then some (.addService fl u (svcArgs j))
   else if op == "add_link" then
-    finish (addLink fl u (getStr j "name") (optNid j "nid") (optStr j "ltype") (ifArgs j "ifs") (optStr j "tech") (propArgs j "props") s)
-      (fun r => nidJ r.1) nul
+    some (.addLink fl u (getStr j "name") (optNid j "nid") (optStr j "ltype") (ifArgs j "ifs") (optStr j "tech") (propArgs j "props"))
   else if op == "ns_add_interface" then
-    finish (nsAddInterface fl u (nidOfString (getStr j "svc")) (cacheOf j "cache") (getStr j "name") (optNid j "nid") (optStr j "itype")
-      (propArgs j "props") s) (fun r => nidJ r.1) (fun _ => cacheJson (cacheOf j "cache"))
-  else if op == "ns_remove_interface" then
-    finish (nsRemoveInterface fl (nidOfString (getStr j "svc")) (getStr j "name") s) nul nul
-  else if op == "connect" then
-    finish (connectInterface fl u (nidOfString (getStr j "svc")) (cacheOf j "cache") (ifArg ((j.getObjVal? "if").toOption.getD Json.null)) s)
-      nul cacheJson
-  else if op == "disconnect" then
-    finish (disconnectInterface (cacheOf j "cache") (ifArg ((j.getObjVal? "if").toOption.getD Json.null)) s) nul cacheJson
+    some (.nsAddInterface fl u (nidOfString (getStr j "svc")) (cacheOf j "cache") (getStr j "name") (optNid j "nid")
+      (optStr j "itype") (propArgs j "props"))
+  else if op == "ns_remove_interface" then some (.nsRemoveInterface fl (nidOfString (getStr j "svc")) (getStr j "name"))
+  else if op == "connect" then some (.connect fl u (nidOfString (getStr j "svc")) (cacheOf j "cache") ifa)
+  else if op == "disconnect" then some (.disconnect (cacheOf j "cache") ifa)
   else if op == "add_facility" then
-    finish (addFacility fl u (getStr j "name") (optNid j "nid") (optStr j "site") (optStr j "nstype") (propArgs j "nsprops")
-      (facIfs j "ifs") (propArgs j "props") s) nidJ nul
+    some (.addFacility fl u (getStr j "name") (optNid j "nid") (optStr j "site") (optStr j "nstype") (propArgs j "nsprops")
+      (facIfs j "ifs") (propArgs j "props"))
   else if op == "add_switch" then
-    finish (addSwitch fl u (getStr j "name") (optNid j "nid") (optStr j "site") (optStr j "nstype") (propArgs j "nsprops")
-      (portSpecs j "ports") s) nidJ nul
-  else if op == "remove_node" then finish (removeNode (getStr j "name") s) nul nul
-  else if op == "remove_facility" then finish (removeFacility (getStr j "name") s) nul nul
-  else if op == "remove_switch" then finish (removeSwitch (getStr j "name") s) nul nul
-  else if op == "remove_link" then finish (removeLink (getStr j "name") s) nul nul
-  else if op == "remove_service" then finish (removeService (getStr j "name") s) nul nul
-  else if op == "node_remove_service" then finish (nodeRemoveService (nidOfString (getStr j "parent")) (getStr j "name") s) nul nul
-  else if op == "remove_component" then finish (removeComponent (nidOfString (getStr j "parent")) (getStr j "name") s) nul nul
-  else if op == "set_props" then finish (setProps (nidOfString (getStr j "nid")) (propArgs j "props") s) nul nul
-  else if op == "unset_prop" then finish (unsetProp (nidOfString (getStr j "nid")) (optStr j "gname") s) nul nul
-  else if op == "rename" then finish (rename (clsOf (getStr j "kind")) (nidOfString (getStr j "nid")) (getStr j "name") s) nul nul
-  else if op == "views" then
-    (s, ok (Json.mkObj [("nodes", ofStrs (viewNodes s)), ("facilities", ofStrs (viewFacilities s)),
-                        ("links", ofStrs (viewLinks s)), ("services", ofStrs (viewServices s))]))
-  else (s, err "bad-op")
+    some (.addSwitch fl u (getStr j "name") (optNid j "nid") (optStr j "site") (optStr j "nstype") (propArgs j "nsprops")
+      (portSpecs j "ports"))
+  else if op == "remove_node" then some (.removeNode (getStr j "name"))
+  else if op == "remove_facility" then some (.removeFacility (getStr j "name"))
+  else if op == "remove_switch" then some (.removeSwitch (getStr j "name"))
+  else if op == "remove_link" then some (.removeLink (getStr j "name"))
+  else if op == "remove_service" then some (.removeService (getStr j "name"))
+  else if op == "node_remove_service" then some (.nodeRemoveService (nidOfString (getStr j "parent")) (getStr j "name"))
+  else if op == "remove_component" then some (.removeComponent (nidOfString (getStr j "parent")) (getStr j "name"))
+  else if op == "set_props" then some (.setProps (nidOfString (getStr j "nid")) (propArgs j "props"))
+  else if op == "unset_prop" then some (.unsetProp (nidOfString (getStr j "nid")) (optStr j "gname"))
+  else if op == "rename" then some (.rename (clsOf (getStr j "kind")) (nidOfString (getStr j "nid")) (getStr j "name"))
+  else none
+
+def outRet (o : Out) : Json := match o.ret with | some n => nidJ n | none => Json.null
+def outCache (o : Out) : Json := match o.cache with | some c => cacheJson c | none => Json.null
+
+/-- every building call goes through `Topo.step` -/
+def step (s : Topo) (j : Json) : Topo × Json :=
+  let op := getStr j "op"
+  match opOf j with
+  | some o => finish (Topo.step o s) outRet outCache
+  | none =>
+    if op == "reset" then (Topo.empty, ok Json.null)
+    else if op == "snap" then (s, ok (snapJson s))
+    else if op == "views" then
+      (s, ok (Json.mkObj [("nodes", ofStrs (viewNodes s)), ("facilities", ofStrs (viewFacilities s)),
+                          ("links", ofStrs (viewLinks s)), ("services", ofStrs (viewServices s))]))
+    else (s, err "bad-op")
 
 end FimVerif.TopoRun
